@@ -1713,6 +1713,7 @@ class Stream(AbstractStream):
                 phase, = phases
                 self.phase = phase
                 self.mol.copy_like(other.imol[phase])
+                self._thermal_condition.copy_like(other._thermal_condition)
                 return
             else:
                 self.phases = other.phases
